@@ -100,7 +100,19 @@ def generate_cases(tier, ev, vals, tagp):
 
 
 def compare(case, res, kind, route, verd, ev):
-    """Compare one replayed behaviour with the specification's expectations."""
+    """Compare one replayed behaviour with the specification's expectations.  A result record that is
+    malformed (possible after memory corruption in the worker) is itself a violation."""
+    try:
+        return compare_inner(case, res, kind, route, verd, ev)
+    except (KeyError, TypeError, IndexError) as ex:
+        verd.report({"kind": kind, "route": route, "kind_of_failure": "corrupted-result", "op": "?"},
+                    "the worker returned a malformed observation record (%r) for kind=%s route=%s: memory corruption "
+                    "in the list code?  result=%s" % (ex, kind, route, str(res)[:300]),
+                    {"case": case, "kind": kind, "route": route, "result": res})
+        return False
+
+
+def compare_inner(case, res, kind, route, verd, ev):
     what = {"kind": kind, "route": route}
     ops = case["ops"]
     oc = vlib.outcome_of(res)
